@@ -68,7 +68,7 @@ RespDom ==
   [ status  |-> {"ok", "200", "404", "malformed"},
     upgrade |-> {"ok", "ok-mixedcase", "missing", "other", "superstring"},
     conn    |-> {"ok", "missing", "other"},
-    accept  |-> {"ok", "missing", "dup", "wrong", "other-key"},
+    accept  |-> {"ok", "missing", "dup", "wrong", "wrong-case", "other-key"},     \* wrong-case: right letters, other case = another value
     proto   |-> {"ok-none", "ok-requested", "notrequested", "substring-of-requested", "dup"},
     exts    |-> {"ok-none", "unknown", "emptyparam"} ]
 RespFeatures == DOMAIN RespDom
